@@ -224,7 +224,9 @@ impl AddressStore {
     /// Create new [`AddressStore`].
     pub fn new() -> Self {
         Self {
-            addresses: HashMap::with_capacity(MAX_ADDRESSES),
+            // Allocated on first insert: stores are created for every peer decoded from a remote
+            // message, most of which carry few or no addresses.
+            addresses: HashMap::new(),
             max_capacity: MAX_ADDRESSES,
         }
     }
